@@ -276,6 +276,10 @@ func runC17(c *Ctx) {
 	c.Rule("C17-D7", "a closed session is not altered — not by a late UPGRADE either (F57, shared with C06-D12)", 3)
 	closedSocketAdoptsNoTransport(c, "C17-D7")
 
+	c.Rule("C17-D8", "a request that reaches a live session's polling transport is answered explicitly (F70, known finding): every path through polling.ServerTransport.ServeHTTP hands the ResponseWriter to a handler or writes a reply — "+
+		"a path that writes nothing is `200 OK` with an empty body, not the protocol's error", 1)
+	transportAnswersEveryRequest(c, "C17-D8")
+
 	c.Rule("C17-D5", "a closed session is unknown afterwards: whatever the close reason, the Engine.IO close body calls or defers onClose(s.id) on every path, and newSocket wires that callback to the store's delete "+
 		"— a session that ended by CLOSE packet, transport drop or buffer overflow and stays in the table keeps answering its sid with 200 instead of error 1 (shared with C06-D2)", 2)
 	{
